@@ -72,6 +72,11 @@ type ScriptConn struct {
 	readDL, writeDL  time.Time
 	DeadlineAnomaly  string
 	TimedOutReads    int // Reads that returned a timeout because the armed deadline passed during a pause
+	// LongPauseBefore (1-based segment number, 0: none): the peer stays silent for LongPause before that segment - once;
+	// if that outlasts the armed read deadline the Read times out and the segment arrives with the next Read
+	LongPauseBefore int
+	LongPause       time.Duration
+	pausedAt        int
 }
 
 func NewScriptConn(segs [][]byte, term string) *ScriptConn {
@@ -102,24 +107,31 @@ func (c *ScriptConn) Read(b []byte) (int, error) {
 		}
 		return 0, c.term
 	}
-	if c.Pause > 0 && c.off == 0 {
+	pause := c.Pause
+	if c.LongPauseBefore > 0 && c.idx == c.LongPauseBefore-1 {
+		pause = c.LongPause
+	}
+	if pause > 0 && c.off == 0 && !(c.pausedAt == c.idx+1) {
 		// the peer takes its time before it sends the next segment (virtual clock). Like a real connection, a
 		// Read that is still waiting when its deadline passes returns a timeout error.
 		dl := c.readDL
 		c.mu.Unlock()
-		if !dl.IsZero() && dl.Before(time.Now().Add(c.Pause)) && !c.RequireDeadlines {
+		if !dl.IsZero() && dl.Before(time.Now().Add(pause)) && !c.RequireDeadlines {
 			if d := time.Until(dl); d > 0 {
 				time.Sleep(d)
 			}
 			c.mu.Lock()
 			c.TimedOutReads++
+			if c.LongPauseBefore > 0 {
+				c.pausedAt = c.idx + 1 // the one long pause is over: the segment is there for the next Read
+			}
 			c.mu.Unlock()
 			return 0, timeoutErr{}
 		}
-		time.Sleep(c.Pause)
+		time.Sleep(pause)
 		c.mu.Lock()
 		if c.RequireDeadlines && c.DeadlineAnomaly == "" && (c.readDL.IsZero() || c.readDL.Before(time.Now())) {
-			c.DeadlineAnomaly = fmt.Sprintf("after a pause of %s before segment %d the read deadline (%v) had not been renewed: with ReadTimeout configured every wait for a command must be armed afresh", c.Pause, c.idx, c.readDL)
+			c.DeadlineAnomaly = fmt.Sprintf("after a pause of %s before segment %d the read deadline (%v) had not been renewed: with ReadTimeout configured every wait for a command must be armed afresh", pause, c.idx, c.readDL)
 		}
 	}
 	n := copy(b, c.segs[c.idx][c.off:])
